@@ -598,6 +598,10 @@ impl<'a> Parser<'a> {
         let mut duration: ParsedDuration = ParsedDuration::new();
         let mut got_t: bool = false;
         let mut last_had_fraction = false;
+        // Position of the last designator seen (Y < M < W/D < H < M < S):
+        // designators must not be repeated or appear out of order,
+        // whatever their value.
+        let mut last_rank: u8 = 0;
 
         loop {
             match self.current {
@@ -606,6 +610,12 @@ impl<'a> Parser<'a> {
                         return Err(
                             self.parse_error("Repeated time declaration in duration".to_string())
                         );
+                    }
+
+                    if last_rank == 3 {
+                        return Err(self.parse_error(
+                            "Week format durations cannot have a time part".to_string(),
+                        ));
                     }
 
                     got_t = true;
@@ -623,14 +633,12 @@ impl<'a> Parser<'a> {
                     if got_t {
                         match self.current {
                             'H' => {
-                                if duration.minutes != 0
-                                    || duration.seconds != 0
-                                    || duration.microseconds != 0
-                                {
+                                if last_rank >= 5 {
                                     return Err(
                                         self.parse_error("Duration units out of order".to_string())
                                     );
                                 }
+                                last_rank = 5;
 
                                 duration.hours = self.add_duration_value(duration.hours, value)?;
 
@@ -650,11 +658,12 @@ impl<'a> Parser<'a> {
                                 }
                             }
                             'M' => {
-                                if duration.seconds != 0 || duration.microseconds != 0 {
+                                if last_rank >= 6 {
                                     return Err(
                                         self.parse_error("Duration units out of order".to_string())
                                     );
                                 }
+                                last_rank = 6;
 
                                 duration.minutes = self.add_duration_value(duration.minutes, value)?;
 
@@ -670,7 +679,14 @@ impl<'a> Parser<'a> {
                                 }
                             }
                             'S' => {
-                                duration.seconds = value;
+                                if last_rank >= 7 {
+                                    return Err(
+                                        self.parse_error("Duration units out of order".to_string())
+                                    );
+                                }
+                                last_rank = 7;
+
+                                duration.seconds = self.add_duration_value(duration.seconds, value)?;
 
                                 if let Some(fraction) = op_fraction {
                                     duration.microseconds +=
@@ -693,11 +709,12 @@ impl<'a> Parser<'a> {
                                     ));
                                 }
 
-                                if duration.months != 0 || duration.days != 0 {
+                                if last_rank >= 1 {
                                     return Err(
                                         self.parse_error("Duration units out of order".to_string())
                                     );
                                 }
+                                last_rank = 1;
 
                                 duration.years = value;
                             }
@@ -709,20 +726,22 @@ impl<'a> Parser<'a> {
                                     ));
                                 }
 
-                                if duration.days != 0 {
+                                if last_rank >= 2 {
                                     return Err(
                                         self.parse_error("Duration units out of order".to_string())
                                     );
                                 }
+                                last_rank = 2;
 
                                 duration.months = value;
                             }
                             'W' => {
-                                if duration.years != 0 || duration.months != 0 {
+                                if last_rank != 0 {
                                     return Err(self.parse_error(
                                         "Basic format durations cannot have weeks".to_string(),
                                     ));
                                 }
+                                last_rank = 3;
 
                                 duration.weeks = value;
 
@@ -749,11 +768,17 @@ impl<'a> Parser<'a> {
                                 }
                             }
                             'D' => {
-                                if duration.weeks != 0 {
+                                if last_rank == 3 {
                                     return Err(self.parse_error(
                                         "Week format durations cannot have days".to_string(),
                                     ));
                                 }
+                                if last_rank >= 4 {
+                                    return Err(
+                                        self.parse_error("Duration units out of order".to_string())
+                                    );
+                                }
+                                last_rank = 4;
 
                                 duration.days = self.add_duration_value(duration.days, value)?;
                                 if let Some(fraction) = op_fraction {
